@@ -30,8 +30,8 @@
   Every operation below is one atomic step: `Put`, `Take`, `Close` and the callback's `p.removeEntry`
   hold `p.mu` throughout; the timer firing and the callback's `val.Close()` happen outside the lock
   and are separate steps (`fire`, `cbClose`), as are the environment's events.
-  Ghost fields (`handed`, `poolClosed`, `dropped`, `State.handouts`) record what happened to each
-  entry; no model decision reads them.
+  Ghost fields (`handed`, `poolClosed`, `dropped`, `State.handouts`, `State.held`, `State.proper`)
+  record what happened to each entry and what the callers hold; no model decision reads them.
 -/
 namespace Drpc.Pool
 
@@ -81,10 +81,14 @@ structure State where
   conns : Nat → Conn
   /-- ghost: entry ids returned by `Take`, oldest first -/
   handouts : List Nat
+  /-- ghost: the callers hold connection v: it was never put, or `Take` returned it after its last `Put` -/
+  held : Nat → Bool
+  /-- ghost: so far every `Put` was of a connection its caller held (the protocol of `poolConn`) -/
+  proper : Bool
 
 def init : State :=
   { ents := fun _ => {}, next := 0, order := {}, locals := fun _ => none, conns := fun _ => {},
-    handouts := [] }
+    handouts := [], held := fun _ => true, proper := true }
 
 @[noinline] def upd {α : Type} (f : Nat → α) (i : Nat) (a : α) : Nat → α := fun j => if j = i then a else f j
 
@@ -184,11 +188,13 @@ def insert (cfg : Cfg) (s : State) (k v : Nat) : State × Status :=
     ({ s with ents := upd s.ents e { key := k, val := v, exp := if cfg.expiration then .armed else .none },
               next := e + 1,
               locals := upd s.locals k (some (l.append e)),
-              order := s.order.append e }, .ok)
+              order := s.order.append e,
+              held := upd s.held v false }, .ok)
 
 def put (cfg : Cfg) (s : State) (k v : Nat) : State × Status :=
-  if cfg.capacity < 0 ∨ cfg.keyCapacity < 0 then (poolCloseConn s v, .ok)
-  else if (s.conns v).closed then (s, .ok)
+  let s : State := { s with proper := s.proper && s.held v }          -- ghost: did the caller hold v?
+  if cfg.capacity < 0 ∨ cfg.keyCapacity < 0 then (poolCloseConn { s with held := upd s.held v false } v, .ok)
+  else if (s.conns v).closed then ({ s with held := upd s.held v false }, .ok)
   else
     let s0 := match s.locals k with
       | none => { s with locals := upd s.locals k (some {}) }
@@ -225,13 +231,15 @@ def takeLoop (k : Nat) : List Nat → State → State × Out
           takeLoop k rest { s1 with ents := upd s1.ents e { s1.ents e with dropped := true } }
         else
           ({ s1 with ents := upd s1.ents e { s1.ents e with handed := true },
-                     handouts := s1.handouts ++ [e] }, .taken e (s1.ents e).val)
+                     handouts := s1.handouts ++ [e],
+                     held := upd s1.held (s1.ents e).val true }, .taken e (s1.ents e).val)
       | .armed =>                                             -- Stop() = true
         if (s1.conns (s1.ents e).val).closed then
           takeLoop k rest { s1 with ents := upd s1.ents e { s1.ents e with exp := .stopped, dropped := true } }
         else
           ({ s1 with ents := upd s1.ents e { s1.ents e with exp := .stopped, handed := true },
-                     handouts := s1.handouts ++ [e] }, .taken e (s1.ents e).val)
+                     handouts := s1.handouts ++ [e],
+                     held := upd s1.held (s1.ents e).val true }, .taken e (s1.ents e).val)
       | _ => takeLoop k rest s1                               -- Stop() = false
 
 def take (s : State) (k : Nat) : State × Out :=
